@@ -3,5 +3,6 @@
 set -e
 export CARGO_NET_OFFLINE=true
 export RUSTFLAGS="--cfg agdb_verif"
-cd /verif/harness
-cargo build --release
+HERE="$(cd "$(dirname "$0")/.." && pwd)"
+cd "$HERE/harness"
+cargo build --release --target-dir "$HERE/target/harness"
